@@ -25,11 +25,11 @@ import numpy as np
 ID = "C26"
 LEVEL = "exploration"
 RULE = ("cases = pairs of systems (num_wann, lattice, R-list relation, matrix-set relation, centres same/different, "
-        "plain or SOC); each case runs every alpha in {0,.25,.5,1,-.5,1.5}; non-trivial key = (kind, R relation, "
-        "matrix relation, centres) when the two systems really differ in that respect (the R lists differ as lists, "
-        "or the centres differ, or a matrix is dropped)")
+        "plain or SOC); each case runs every alpha in {0,.25,.5,1,-.5,1.5}; a case is non-trivial when the two "
+        "systems really differ in a respect the interpolator must handle (the R lists differ as lists, or the centres "
+        "differ, or a matrix present in only one system is dropped)")
 ASSUMPTIONS = [
-    "pairs are in-memory zoo systems (num_wann 1-3, tric/hex lattices, R-sets shell1/shell2/lopsided) with generic matrices; "
+    "pairs are in-memory zoo systems (num_wann 1-3, tric/hex(/fcc) lattices, R-sets shell1/shell2/lopsided) with generic matrices; "
     "same lattice, same num_wann, both spin-orbit systems carry a spin-orbit term (the constructor requires rvec)",
     "k alphabet: Gamma, X, two generic points; observables compared only where bands are non-degenerate (gap > 1e-3: the tabulators average bands closer than degen_thresh=1e-4)",
     "the derivative matrices Xbar(name,1) and Berry curvature count as 'matrices at every k' (they depend on the centres)",
@@ -58,7 +58,7 @@ CEN_REL = {"same": ("generic", "generic"), "different": ("generic", "shared"), "
 def cases(tier, seed):
     out = []
     nws = (1, 2) if tier == "quick" else (1, 2, 3)
-    lats = ("tric", "hex")
+    lats = ("tric", "hex") if tier == "quick" else ("tric", "hex", "fcc")
     cens = ("same", "different") if tier == "quick" else ("same", "different", "different2")
     for nw in nws:
         for lat in lats:
@@ -70,7 +70,7 @@ def cases(tier, seed):
                         out.append({"kind": "R", "nw": nw, "lat": lat, "rrel": rrel, "mrel": mrel, "crel": crel})
     # spin-orbit pairs
     for nw in ((1,) if tier == "quick" else (1, 2)):
-        for lat in (("tric",) if tier == "quick" else lats):
+        for lat in (("tric",) if tier == "quick" else ("tric", "hex")):
             for spins in ("11", "22", "12", "21"):
                 for rrel in ("equal", "0_in_1", "overlap"):
                     for crel in ("same", "different"):
@@ -274,7 +274,7 @@ def check_pair(case, s0, s1, itp, subsystems):
             ok, txt = centre_state(get(results[alpha]))
             if not ok:
                 red_ref = ((1 - alpha) * e0.wannier_centers_cart + alpha * e1.wannier_centers_cart) @ np.linalg.inv(e0.real_lattice)
-                return {"ok": False, "key": "interpolate:stale_rvec_shifts:reduced_centres_not_affine",
+                return {"ok": False, "key": "interpolate:stale_rvec_shifts:centres_inconsistent",
                         "detail": f"{case} {label} alpha={alpha}: {txt}; wannier_centers_red={np.round(get(results[alpha]).wannier_centers_red, 4).tolist()} "
                                   f"expected (1-a)*red0+a*red1={np.round(red_ref, 4).tolist()}"}
     # ---------------- HH_K affine in alpha (no centre phases enter H itself)
@@ -319,10 +319,11 @@ def run_case(case, seed):
     if dropped:
         nt.append((case["kind"], "matrix_dropped", case.get("mrel", case.get("spins"))))
     if bad is not None:
-        bad["nontrivial"] = nt or False
+        bad["nontrivial"] = bool(nt)
         return bad
-    return {"ok": True, "nontrivial": nt or False,
-            "obs": {"alphas": len(ALPHAS), "centres_differ": cen_differ, "lists_differ": lists_differ}}
+    return {"ok": True, "nontrivial": bool(nt),
+            "obs": {"alphas": len(ALPHAS), "centres_differ": cen_differ, "lists_differ": lists_differ,
+                    "matrix_dropped": dropped}}
 
 
 def finish(tier, cases, results):
